@@ -50,6 +50,10 @@ class Ctx:
         self.bank = exprsem.Bank(fns, "math")
         self.ev = exprsem.Evaluator(self.bank, "sql")
         self.decls = []
+        # one ordered declaration list shared with the expression evaluator (definitions may refer to its fresh symbols)
+        self.bank.decls = self.decls
+        self.ev.extra_decls = self.decls
+        self.bank.namer = lambda term, ty: self.name(term, ty if ty in ("i64", "f64", "bool") else "i64", "a")
         self.asserts = []
         self.n = 0
         self.cache = {}
@@ -62,7 +66,19 @@ class Ctx:
         return name
 
     def all_decls(self):
-        return self.decls + self.ev.declarations()
+        return self.decls
+
+    def name(self, term, ty, hint="t"):
+        """give a long term a name (define-fun): keeps the script linear in the size of the relation DAG"""
+        if len(term) < 48:
+            return term
+        self.n += 1
+        nm = "%s_%d" % (re.sub(r"[^A-Za-z0-9_]", "_", hint)[:24], self.n)
+        self.decls.append("(define-fun %s () %s %s)" % (nm, sort_of(ty), term))
+        return nm
+
+    def name_cell(self, c, hint="c"):
+        return Cell(self.name(c.n, "bool", hint + "_n"), c.ty, self.name(c.t, c.ty, hint), c.opt)
 
     def all_asserts(self):
         return self.asserts + self.ev.side_constraints()
@@ -85,15 +101,29 @@ def member_math(dt, cell):
 # --------------------------------------------------------------------------------------------- database
 
 
-def make_table(ctx, table, K, tag=""):
-    """symbolic contents of a base table given its (driver) JSON: name, path, schema, size"""
+def make_table(ctx, table, K, tag="", fixed=None, in_range=True):
+    """symbolic contents of a base table given its (driver) JSON: name, path, schema, size.
+    fixed: {"present": [bool]*K, (column, slot): python value or None} - a concrete key layout; everything else symbolic.
+    in_range=False leaves the values unconstrained by the declared type (dynamic clipping must not rely on it)."""
+    fixed = fixed or {}
     rows = []
     cols = [f["name"] for f in table["schema"]]
     for i in range(K):
-        p = ctx.new("bool", "%s%s_p%d" % (tag, table["name"], i))
+        if "present" in fixed:
+            p = "true" if fixed["present"][i] else "false"
+        else:
+            p = ctx.new("bool", "%s%s_p%d" % (tag, table["name"], i))
         cells = {}
         for f in table["schema"]:
             ty = col_ty(f["dt"])
+            if (f["name"], i) in fixed:
+                fv = fixed[(f["name"], i)]
+                if fv is None:
+                    cells[f["name"]] = Cell("true", ty, zero(ty), True)
+                else:
+                    lit = ("true" if fv else "false") if ty == "bool" else (smt.real_lit(fractions.Fraction(fv)) if ty == "f64" else smt.int_lit(int(fv)))
+                    cells[f["name"]] = Cell("false", ty, lit, f["dt"]["t"] == "Optional")
+                continue
             v = ctx.new(ty, "%s%s_%s%d" % (tag, table["name"], f["name"], i))
             if f["dt"]["t"] == "Optional":
                 n = ctx.new("bool", "%s%s_%s%d_null" % (tag, table["name"], f["name"], i))
@@ -101,7 +131,7 @@ def make_table(ctx, table, K, tag=""):
                 n = "false"
             c = Cell(n, ty, v, f["dt"]["t"] == "Optional")
             cells[f["name"]] = c
-            m = member_math(f["dt"], c)
+            m = member_math(f["dt"], c) if in_range else "true"
             if m != "true":
                 ctx.asserts.append(lor([n, m]) if n != "false" else m)
         rows.append(Row(p, cells))
@@ -136,9 +166,21 @@ def tables_of(rel, out=None):
 # --------------------------------------------------------------------------------------------- operators
 
 
+_LIT = re.compile(r"^(?:-?\d+(?:\.\d+)?|\(- \d+(?:\.\d+)?\)|true|false)$")
+
+
+def term_eq(x, y):
+    """(= x y) with constant folding on literals (concrete key layouts make most key comparisons decidable)"""
+    if x == y:
+        return "true"
+    if _LIT.match(x) and _LIT.match(y):
+        return "false"   # distinct literal spellings of the same sort denote distinct values (literals are canonical)
+    return "(= %s %s)" % (x, y)
+
+
 def cell_eq(a, b):
     """SQL grouping equality: NULLs are equal to each other"""
-    return lor([land([a.n, b.n]), land([lnot(a.n), lnot(b.n), "(= %s %s)" % (a.t, b.t)])])
+    return lor([land([a.n, b.n]), land([lnot(a.n), lnot(b.n), term_eq(a.t, b.t)])])
 
 
 def eval_rel(ctx, rel, db, memo=None):
@@ -165,6 +207,11 @@ def eval_rel(ctx, rel, db, memo=None):
     return r
 
 
+def prune(rows):
+    """drop row slots that are statically absent"""
+    return [r for r in rows if r.p != "false"]
+
+
 def env_of(row):
     return {(n,): c for n, c in row.cells.items()}
 
@@ -179,14 +226,14 @@ def eval_map(ctx, rel, inp):
             f = ctx.ev.eval(rel["filter"], env, rk)
             if f.ty != "bool":
                 raise Unsupported("non boolean filter")
-            p = land([p, lnot(f.n), f.t])
+            p = ctx.name(land([p, lnot(f.n), f.t]), "bool", rel["name"] + "_p")
         cells = {}
         for name, e in rel["projection"]:
-            cells[name] = ctx.ev.eval(e, env, rk)
+            cells[name] = ctx.name_cell(ctx.ev.eval(e, env, rk), name)
         rows.append(Row(p, cells))
     if rel.get("limit") is not None or rel.get("offset") is not None:
         rows = limit_offset(ctx, rel, inp, rows)
-    return Rel([n for n, _ in rel["projection"]], rows, rel["name"])
+    return Rel([n for n, _ in rel["projection"]], prune(rows), rel["name"])
 
 
 def limit_offset(ctx, rel, inp, rows):
@@ -216,7 +263,7 @@ def limit_offset(ctx, rel, inp, rows):
         cond = ["(>= %s %d)" % (rank, off)]
         if lim is not None:
             cond.append("(< %s %d)" % (rank, off + lim))
-        out.append(Row(land([r.p] + cond), r.cells))
+        out.append(Row(ctx.name(land([r.p] + cond), "bool", "lim"), r.cells))
     return out
 
 
@@ -258,13 +305,17 @@ def eval_reduce(ctx, rel, inp):
         else:
             ri = rows_in[i]
             same = lambda j: land([cell_eq(rows_in[j].cells[g], ri.cells[g]) for g in gb])
-            members = [land([rows_in[j].p, same(j)]) for j in range(len(rows_in))]
-            earlier = [land([rows_in[j].p, same(j)]) for j in range(i)]
-            p_out = land([ri.p] + [lnot(e) for e in earlier])
+            members = [ctx.name(land([rows_in[j].p, same(j)]), "bool", "mem") for j in range(len(rows_in))]
+            earlier = members[:i]
+            p_out = ctx.name(land([ri.p] + [lnot(e) for e in earlier]), "bool", "rep")
+        if p_out == "false":
+            continue
         cells = {}
         for name, e in rel["aggregate"]:
             agg, colname = agg_arg(e)
-            cells[name] = aggregate(ctx, agg, [r.cells[colname] for r in rows_in], members, rows_in[i].cells[colname] if i is not None else None, "%s_%s_%s" % (rel["name"], name, i))
+            cells[name] = ctx.name_cell(aggregate(ctx, agg, [r.cells[colname] for r in rows_in], members, rows_in[i].cells[colname] if i is not None else None, "%s_%s_%s" % (rel["name"], name, i)), name)
+        if p_out == "false":
+            continue
         out.append(Row(p_out, cells))
     return Rel([n for n, _ in rel["aggregate"]], out, rel["name"])
 
@@ -373,18 +424,18 @@ def eval_join(ctx, rel, left, right):
                     env[("_RIGHT_", n)] = c
                 o = ctx.ev.eval(rel["on"], env, "%s#%d_%d" % (rel["name"], i, j))
                 on = land([lnot(o.n), o.t])
-            m = land([l.p, r.p, on])
+            m = ctx.name(land([l.p, r.p, on]), "bool", "jm")
             match[(i, j)] = m
             rows.append(Row(m, out_cells(l, r)))
     if kind in ("LeftOuter", "FullOuter") and left.rows and right.rows:
         for i, l in enumerate(left.rows):
             none = land([lnot(match[(i, j)]) for j in range(len(right.rows))])
-            rows.append(Row(land([l.p, none]), out_cells(l, None)))
+            rows.append(Row(ctx.name(land([l.p, none]), "bool", "lo"), out_cells(l, None)))
     if kind in ("RightOuter", "FullOuter") and left.rows and right.rows:
         for j, r in enumerate(right.rows):
             none = land([lnot(match[(i, j)]) for i in range(len(left.rows))])
-            rows.append(Row(land([r.p, none]), out_cells(None, r)))
-    return Rel([n for n, _ in fi], rows, rel["name"])
+            rows.append(Row(ctx.name(land([r.p, none]), "bool", "ro"), out_cells(None, r)))
+    return Rel([n for n, _ in fi], prune(rows), rel["name"])
 
 
 def row_eq(a, b, cols_a, cols_b):
@@ -404,7 +455,7 @@ def eval_set(ctx, rel, left, right):
         out = []
         for i, r in enumerate(allr):
             dup = [land([allr[j].p, row_eq(allr[j], r, cols, cols)]) for j in range(i)]
-            out.append(Row(land([r.p] + [lnot(x) for x in dup]), r.cells))
+            out.append(Row(ctx.name(land([r.p] + [lnot(x) for x in dup]), "bool", "un"), r.cells))
         return Rel(cols, out, rel["name"])
     if not distinct:
         raise Unsupported("%s ALL" % op)
@@ -413,7 +464,7 @@ def eval_set(ctx, rel, left, right):
         dup = [land([lrows[j].p, row_eq(lrows[j], r, cols, cols)]) for j in range(i)]
         inr = lor([land([s.p, row_eq(s, r, cols, cols)]) for s in rrows])
         keep = inr if op == "Intersect" else lnot(inr)
-        out.append(Row(land([r.p, keep] + [lnot(x) for x in dup]), r.cells))
+        out.append(Row(ctx.name(land([r.p, keep] + [lnot(x) for x in dup]), "bool", "st"), r.cells))
     return Rel(cols, out, rel["name"])
 
 
@@ -520,7 +571,7 @@ def model_db(ctx_tables, model):
     for path, (tj, rel) in ctx_tables.items():
         rows = []
         for r in rel.rows:
-            if model.get(r.p) is not True:
+            if not (r.p == "true" or model.get(r.p) is True):
                 continue
             row = {}
             for f in tj["schema"]:
@@ -529,6 +580,10 @@ def model_db(ctx_tables, model):
                     row[f["name"]] = None
                 else:
                     mv = model.get(c.t)
+                    if mv is None:   # a fixed (literal) cell
+                        lit = c.t.replace("(- ", "-").replace(")", "")
+                        row[f["name"]] = (lit == "true") if c.ty == "bool" else (float(fractions.Fraction(lit.replace("(/ ", "").replace(" ", "/"))) if c.ty == "f64" else int(lit))
+                        continue
                     if c.ty == "f64":
                         row[f["name"]] = float(fractions.Fraction(mv)) if not isinstance(mv, tuple) else 0.0
                     elif c.ty == "bool":
@@ -544,9 +599,11 @@ def value_names(ctx_tables):
     names = []
     for path, (tj, rel) in ctx_tables.items():
         for r in rel.rows:
-            names.append(r.p)
+            if r.p not in ("true", "false"):
+                names.append(r.p)
             for c in r.cells.values():
-                names.append(c.t)
-                if c.n != "false":
+                if re.fullmatch(r"[A-Za-z_][A-Za-z0-9_]*", c.t) and c.t not in ("true", "false"):
+                    names.append(c.t)
+                if c.n not in ("false", "true"):
                     names.append(c.n)
     return names
